@@ -71,6 +71,12 @@ func corpusC02() []*Case {
 	cs = append(cs, single("conflicts with !name",
 		[]Pkg{pk("a", "1.0", "!b", "c"), pk("b", "1.0"), pk("c", "1.0", "b"), pk("c", "0.9"), pk("d", "1.0", "!d")},
 		w("a"), w("a", "b"), w("b", "a"), w("d"), w("c")))
+	// the origin of C09-F6: c's conflict entry !b is applied after b was chosen for a (the set holds both);
+	// the lock of that result resolves in no order of its entries
+	cs = append(cs, single("member excluded by another member's conflict entry",
+		[]Pkg{pk("a", "1.0", "b", "c"), pk("b", "1.0"), pk("c", "1.0", "!b")},
+		w("a"), w("b=1.0", "c=1.0", "a=1.0"), w("a=1.0", "b=1.0", "c=1.0"), w("c=1.0", "b=1.0", "a=1.0"), w("a=1.0", "c=1.0", "b=1.0"),
+		w("c", "b"), w("b", "c")))
 	cs = append(cs, single("existing version and origin preference",
 		[]Pkg{pk("app", "1.0", "lib"), pk("lib", "1.0").origin("o"), pk("lib", "2.0").origin("o"), pk("tool", "1.0", "lib=1.0"), pk("q", "1.0").origin("o").prov("lib=9")},
 		w("tool", "app"), w("app", "tool"), w("app"), w("lib=1.0", "app"), w("app", "lib<2")))
